@@ -2,12 +2,13 @@
 # usage: run_seed.sh <seed id> <check id>...   applies seeded/<id>/patch.diff (or /tmp/seed-<id>) to /repo, runs the checks, reverts
 ID=$1; shift
 P=/verif/seeded/$ID/patch.diff; [ -f $P ] || P=/tmp/seed-$ID/patch.diff
-cd /repo && git apply $P || { echo "patch does not apply"; exit 2; }
+cd /repo && { git apply $P 2>/dev/null || git apply --3way $P; } || { echo "patch does not apply"; exit 2; }
 export VERIF_EVIDENCE_DIR=/verif/target/campaign-evidence-seed; mkdir -p $VERIF_EVIDENCE_DIR
 cd /verif
 for c in "$@"; do
   echo "=== seed $ID check $c"
   ./check $c 2>&1 | grep -v "^KNOWN-FINDING" | tail -4
 done
+git -C /repo reset -q
 git -C /repo checkout -- .
 git -C /repo status --short | head -3
